@@ -67,11 +67,16 @@ class read_long_blockstart:
 
 @target(M, "BinaryDecoder.read_long", behavior="short")
 class read_long_short:
-    """no assumption on the input: a short read makes the method raise"""
+    """no assumption on the input: a short read makes the method raise.  EOFError is raised exactly when
+    there was nothing at all to read (the container iterators take THAT as the end of the file); running out
+    of input inside a multi-byte varint is a different exception, so a file cut inside a block's record count
+    is not mistaken for a clean end"""
     types = dict(self="BinaryDecoder")
     modifies = ["self.fo"]
     returns = "int"
-    raises = [R("EOFError", must=False), R("TypeError", must=False)]
+    raises = [R("EOFError", when=lambda self: self.fo.rem == b"",
+                ensures=lambda self: self.fo.rem == b"" and self.fo.data == old.self.fo.data and self.fo.pos == old.self.fo.pos),
+              R("TypeError", when=lambda self: self.fo.rem != b"", must=False)]
     ensures = lambda self, result: (
         self.fo.eof_hit == old.self.fo.eof_hit and self.fo.data == old.self.fo.data
         and self.fo.pos > old.self.fo.pos)
@@ -203,8 +208,8 @@ class read_fixed:
 
 @target(M, "BinaryDecoder.read_fixed", behavior="short")
 class read_fixed_short:
+    """any size, also a negative one (a damaged length: read(-n) takes everything that is left, which is not a short read)"""
     types = dict(self="BinaryDecoder", size="int")
-    requires = lambda self, size: size >= 0
     modifies = ["self.fo"]
     returns = "bytes"
     raises = [R("EOFError", must=False)]
